@@ -363,6 +363,24 @@ def h_phase1(E, n, tolkind):
     return 'ok'
 
 
+LINEAR_CASES = [('equal', 1.0, 0.0, 1.0), ('proportional', 3.0, 0.0, 0.8), ('proportional-negative', -2.0, 0.0, 0.8), ('offset', 1.0, 2.0, 0.6), ('linear', 2.0, 3.0, 0.4),
+                ('linear-tiny-slope', 1e-6, 1.0, 0.4), ('linear-huge-offset', 2.0, 1e6, 0.4), ('linear-negative', -0.5, -4.0, 0.4), ('proportional-tiny', 1e-7, 0.0, 0.8),
+                ('offset-huge', 1.0, 1e7, 0.6), ('quadratic', None, None, 0.0)]
+
+
+def h_linear_concrete(E, idx, tol):
+    """concrete companion for the least-squares modes (LAPACK is outside the solver's reach): exact relations student = a*expected + b over 5 samples,
+    with slopes and offsets of very different magnitudes, earn the largest configured credit among the relations that hold; a quadratic relation earns 0"""
+    from mitxgraders.comparers import LinearComparer
+    name, a, b, want = LINEAR_CASES[idx]
+    cmp_ = LinearComparer(equals=1.0, proportional=0.8, offset=0.6, linear=0.4)
+    expected = [1.0, 2.5, 4.0, 7.0, 11.0]
+    student = [e * e for e in expected] if a is None else [a * e + b for e in expected]
+    r = cmp_([[e] for e in expected], student, utils_for(tol))
+    E.check('largest-credit-among-holding-relations', abs(r['grade_decimal'] - want) < 1e-12)
+    return name
+
+
 def h_linear_zero(E, shape, samples):
     """LinearComparer.check_comparing_zero / get_valid_modes: proportional and linear relations are dropped exactly when the student samples are
     all (nearly) zero or the expected samples are all exactly zero - decided for every entry value"""
@@ -428,6 +446,10 @@ def harnesses(tier):
         hs[-1].params = (shape, samples)
     for mode in ('equals',) + (('offset',) if T else ()):
         add(h_linear, 'linear', dict(mode=mode), '3 scalar samples (NRA)', expect_inconclusive=True)
+    for i in range(len(LINEAR_CASES)):
+        for tol in (('0.01%', 1e-6) if LINEAR_CASES[i][0] in ('equal', 'proportional', 'proportional-negative', 'offset', 'linear', 'linear-negative', 'quadratic') else (1e-6,)):
+            add(h_linear_concrete, 'linear_concrete', dict(i=i, case=LINEAR_CASES[i][0], tol=tol), 'exact relation over 5 concrete samples', validate=False)
+            hs[-1].params = (i, tol)
     add(h_linear, 'linear', dict(mode='offset-any-credits', n='1-symbolic'), '3 scalar samples of which one student sample symbolic; symbolic credits for equals and offset in any order', expect_inconclusive=True)
     if T:
         add(h_linear, 'linear', dict(mode='offset-any-credits', n=3), '3 symbolic scalar samples, symbolic credits for equals and offset in any order (NRA)', expect_inconclusive=True)
